@@ -126,3 +126,48 @@ def store_states(ctx):
     """Hashes of the abstract store states sampled after each source event (coverage measure only;
     tolerant of the attributes disappearing after a refactoring)."""
     return ctx.extra.get('states', ())
+
+
+def run_multi_source(programs, events, monitor=True):
+    """rs.state.with_store(store, sources=[...]): several hot sources share ONE store, each has its own pipeline;
+    party p feeds source p % len(programs).  Returns (ctx, [final per source], escaped)."""
+    import io
+    import contextlib
+    from rx.subject import Subject
+    from .core import Final, set_ctx, WORK, BudgetExceeded
+    from . import core
+    install_monitor()
+    ctx = Ctx(monitor=monitor)
+    ctx.notaps = True
+    k = len(programs)
+    subjects = [Subject() for _ in range(k)]
+    finals = [Final(ctx, 'OUT%d' % i) for i in range(k)]
+    escaped = None
+    prev = core.CUR
+    set_ctx(ctx)
+    WORK[0] = 0
+    try:
+        with contextlib.redirect_stdout(io.StringIO()):
+            try:
+                store = rs.state.StoreManager(store_factory=rs.state.MemoryStore)
+                muxed = rs.state.with_store(store, sources=[sub.pipe(rs.ops.mux_observable()) for sub in subjects])
+                for i in range(k):
+                    muxed[i].pipe(*build(programs[i], ctx, 'mux', 'S%d' % i), rs.ops.demux_observable()).subscribe(
+                        on_next=finals[i].on_next, on_error=finals[i].on_error, on_completed=finals[i].on_completed)
+                for e in events:
+                    ctx.seq += 1
+                    if e['t'] > ctx.now:
+                        ctx.now = e['t']
+                    subjects[e['p'] % k].on_next(mk_rec(e))
+                ctx.seq += 1
+                for sub in subjects:
+                    sub.on_completed()
+            except BudgetExceeded:
+                ctx.aborted = True
+            except Exception as e:
+                escaped = e
+    finally:
+        set_ctx(prev)
+    if escaped is not None and innermost_in_verif(escaped):
+        raise escaped
+    return ctx, finals, escaped
